@@ -129,6 +129,24 @@ T.update({
              caught={"C15": "quick (~480 cases)"}, missed={}, strengthened=""),
 })
 
+T.update({
+ "C16-r2": dict(file="ast/search.go", what="the CopyReturn branch of Searcher.getByPath returns early and builds the copied node without its mutex (ConcurrentRead honoured on the no-copy path only)",
+             needs="ConcurrentRead together with CopyReturn (GetWithOptions / Searcher.GetByPathCopy), result an object or array read by two or more goroutines",
+             caught={"C16": "quick (5 cases; concurrent and single-threaded reads differ / race detector)"}, missed={}, strengthened=""),
+ "C17-r2": dict(file="internal/decoder/api/stream.go", what="StreamDecoder.Decode decodes the frame in place (no copy) when CopyString is set",
+             needs="CopyString and UseNumber, numbers landing in interface{}, at least two values in the stream: json.Number values of earlier results point into the reused read buffer",
+             caught={"C17": "quick (94 cases)", "C06": "quick after strengthening"}, missed={"C06-before": "the stream alias entry decoded one value with ConfigStd only"},
+             strengthened="C06 stream alias entry decodes the document twice from one stream under each of the eight configurations and then overwrites everything it handed in"),
+ "C19-r2": dict(file="internal/decoder/optdec/node.go", what="AsSliceU32 range check off by one (>= MaxUint32)",
+             needs="SONIC_USE_OPTDEC=1, a []uint32 destination and an element equal to 4294967295",
+             caught={"C19": "quick after strengthening (66 cases)"}, missed={"C19-before": "slice destinations covered []float32, []int16, [2]uint32, []interface{} only", "C11": "quick"},
+             strengthened="C19 decodes every literal into slices of every numeric element kind (the alternative decoder has one routine per kind) and into map[string]interface{} / RawMessage"),
+ "C20-r2": dict(file="utf8/utf8.go", what="CorrectWith appends the valid bytes that follow a full position stack only on the last chunk",
+             needs="one input with more than 4096 invalid UTF-8 bytes and valid bytes between the 4096*k-th invalid byte and the next one",
+             caught={"C20": "quick after strengthening (~1700 cases)"}, missed={"C20-before": "invalid runs stopped at 2500 units", "C03": "quick"},
+             strengthened="C20 dense runs of 4095, 4096, 4097, 5000, 8192, 8193, 9000 units, optionally followed by valid text"),
+})
+
 def main():
     ids = sys.argv[1:] or sorted(T)
     for i in ids:
